@@ -284,14 +284,14 @@ def snapshot_diff(a, b):
     return sorted(k for k in set(a) | set(b) if a.get(k) != b.get(k))
 
 
-def judge(ctx, case, exp, open_fn, model_table=None, expect_n_node=None, centres=None, source=None, others=()):
+def judge(ctx, case, exp, open_fn, model_table=None, expect_n_node=None, centres=None, source=None, others=(), edge_centres=None):
     """Judge a source: its first opening, and — when the source is an in-memory object — every further
     opening of the SAME object (`others`: openings of another kind, e.g. the MPAS dual; then the first
     kind again), the first Grid once more after the later openings, and the source itself (a reader must
     not write into what it was given: that is what makes a second decode wrong)."""
     fmt = case["fmt"]
     before = snapshot(source)
-    g1 = judge_once(ctx, case, exp, open_fn, model_table, expect_n_node, centres)
+    g1 = judge_once(ctx, case, exp, open_fn, model_table, expect_n_node, centres, edge_centres=edge_centres)
     if g1 is None or source is None:
         return g1
     reported = []
@@ -308,17 +308,17 @@ def judge(ctx, case, exp, open_fn, model_table=None, expect_n_node=None, centres
     ctx.hit("reopened-same-source")
     for o in others:
         go = judge_once(ctx, case, o["exp"], o["open_fn"], o.get("model_table"), o.get("expect_n_node"), o.get("centres"),
-                        phase="other-opening")
+                        phase="other-opening", edge_centres=o.get("edge_centres"))
         if go is not None and o.get("post"):
             o["post"](go)
         check_source("during the opening of the other mesh")
-    judge_once(ctx, case, exp, open_fn, model_table, expect_n_node, centres, phase="second-opening")
+    judge_once(ctx, case, exp, open_fn, model_table, expect_n_node, centres, phase="second-opening", edge_centres=edge_centres)
     check_source("during the second opening")
-    judge_once(ctx, case, exp, lambda: g1, model_table, expect_n_node, centres, phase="first-grid-after-reopening")
+    judge_once(ctx, case, exp, lambda: g1, model_table, expect_n_node, centres, phase="first-grid-after-reopening", edge_centres=edge_centres)
     return g1
 
 
-def judge_once(ctx, case, exp, open_fn, model_table=None, expect_n_node=None, centres=None, phase=None):
+def judge_once(ctx, case, exp, open_fn, model_table=None, expect_n_node=None, centres=None, phase=None, edge_centres=None):
     """exp = dict(faces, lon, lat) in source numbering; open_fn() -> Grid"""
     d = ctx.driver
     fmt = case["fmt"]
@@ -395,17 +395,28 @@ def judge_once(ctx, case, exp, open_fn, model_table=None, expect_n_node=None, ce
     if expect_n_node is not None and o["n_node"] != expect_n_node:
         ctx.fail(f"C01/{cls_sig}/n_node", f"{fmt}: n_node {o['n_node']} differs from the source's {expect_n_node}", case, impl, model, ["n_node"])
         bad = True
-    if centres is not None:
+    # carried centre coordinates, variable by variable (`carried_lon_normalised`): every carried longitude in
+    # [-180, 180] and the source's modulo 360 (compared as positions), latitudes unchanged
+    for kind, want in (("face", centres), ("edge", edge_centres)):
+        if want is None:
+            continue
         try:
-            fl, fa = np.asarray(g.face_lon.values, float), np.asarray(g.face_lat.values, float)
-            if len(fl) != len(centres[0]) or np.abs(xyz_of(fl, fa) - xyz_of(*centres)).max() > TOL or fl.min() < -180 or fl.max() > 180:
-                ctx.fail(f"C01/{cls_sig}/face-centres", f"{fmt}: supplied face centres are not carried over", case, impl, model, ["face_centres"])
-                bad = True
-            else:
-                ctx.hit("centres-carried")
+            cl_, ca_ = np.asarray(getattr(g, kind + "_lon").values, float), np.asarray(getattr(g, kind + "_lat").values, float)
         except Exception as e:
-            ctx.fail(f"C01/{cls_sig}/face-centres/raises", f"{fmt}: face_lon raises {type(e).__name__}", case, impl, model, ["face_centres"])
+            ctx.fail(f"C01/{fmt}/{kind}-centres/raises", f"{fmt}: {kind}_lon raises {type(e).__name__}", case, impl, model, [kind + "_centres"])
             bad = True
+            continue
+        if len(cl_) != len(want[0]) or not np.all(np.isfinite(cl_)) or np.abs(xyz_of(cl_, ca_) - xyz_of(*want)).max() > TOL:
+            ctx.fail(f"C01/{fmt}/{kind}-centres", f"{fmt}: supplied {kind} centres are not carried over (same positions)", case, impl, model, [kind + "_centres"])
+            bad = True
+        elif cl_.min() < -180 or cl_.max() > 180:
+            ctx.fail(f"C01/{fmt}/{kind}-centres/lon-range",
+                     f"{fmt}: carried {kind}_lon outside [-180, 180] (max {cl_.max():.3f}): each longitude variable must be normalised on its own",
+                     case, dict(impl, **{kind + "_lon": cl_[:20].tolist()}), model, [kind + "_lon_range"])
+            bad = True
+        else:
+            ctx.hit("centres-carried")
+            ctx.hit(f"{kind}-centres-carried")
 
     # correspondence with the Lean reader model (rows up to the start corner)
     if model_table is not None and not bad:
@@ -421,11 +432,30 @@ def judge_once(ctx, case, exp, open_fn, model_table=None, expect_n_node=None, ce
 # --------------------------------------------------------------------------------------
 
 
-def src_lon(case):
-    lon = np.asarray(case["lon"], float)
-    if case["dialect"].get("lon360"):
-        lon = np.where(lon < 0, lon + 360.0, lon)
+LONCONV = ["pm180", "0-360", "mixed"]
+
+
+def lon_conv(case, which, lon_deg):
+    """longitudes (degrees in [-180, 180]) written in the convention drawn for THIS variable (`which` in
+    node / face / edge): [-180, 180), [0, 360), or both mixed inside one array"""
+    mode = (case["dialect"].get("lonconv") or {}).get(which, "pm180")
+    lon = np.asarray(lon_deg, float)
+    if mode == "0-360":
+        return np.where(lon < 0, lon + 360.0, lon)
+    if mode == "mixed":
+        return np.where((lon < 0) & (np.arange(len(lon)) % 2 == 0), lon + 360.0, lon)
     return lon
+
+
+def src_lon(case):
+    return lon_conv(case, "node", case["lon"])
+
+
+def centres_of(xyz, groups):
+    """normalised mean position of each group of nodes, as (lon, lat) degrees in [-180, 180]"""
+    c = np.array([xyz[list(gp)].mean(axis=0) for gp in groups])
+    c /= np.linalg.norm(c, axis=1, keepdims=True)
+    return np.degrees(np.arctan2(c[:, 1], c[:, 0])), np.degrees(np.arcsin(np.clip(c[:, 2], -1, 1)))
 
 
 def conn_array(faces, w, base, fill, store):
@@ -533,6 +563,19 @@ def case_ugrid(ctx, case, sc):
         return
     at = dict(at, cf_role="face_node_connectivity")
     ds[nm["conn"]] = xr.DataArray(arr, dims=[nm["fd"], nm["md"]], attrs=at)
+    # supplied centre coordinates, each longitude variable in its own convention
+    xyz = xyz_of(case["lon"], case["lat"])
+    fc = ec = None
+    if dl.get("face_centres"):
+        fc = centres_of(xyz, faces)
+        ds[nm["x"] + "_fc"] = xr.DataArray(lon_conv(case, "face", fc[0]), dims=[nm["fd"]], attrs=dict(units="degrees_east"))
+        ds[nm["y"] + "_fc"] = xr.DataArray(fc[1].copy(), dims=[nm["fd"]], attrs=dict(units="degrees_north"))
+        ds[nm["mesh"]].attrs["face_coordinates"] = f"{nm['x']}_fc {nm['y']}_fc"
+    if dl.get("edge_centres"):
+        ec = centres_of(xyz, edges_of(faces)[0])
+        ds[nm["x"] + "_ec"] = xr.DataArray(lon_conv(case, "edge", ec[0]), dims=["nEdgesSrc"], attrs=dict(units="degrees_east"))
+        ds[nm["y"] + "_ec"] = xr.DataArray(ec[1].copy(), dims=["nEdgesSrc"], attrs=dict(units="degrees_north"))
+        ds[nm["mesh"]].attrs["edge_coordinates"] = f"{nm['x']}_ec {nm['y']}_ec"
     # optional tables: every one in its OWN, independently drawn dialect
     opt = {}
     if dl.get("tables"):
@@ -557,7 +600,8 @@ def case_ugrid(ctx, case, sc):
                 tat = dict(tat, cf_role=name)
             else:
                 ds[nm["mesh"]].attrs[name] = var
-            ds[var] = xr.DataArray(tarr, dims=[f"d{k}_rows", f"d{k}_cols"], attrs=tat)
+            rowdim = "nEdgesSrc" if name.startswith("edge_") else (nm["fd"] if name.startswith("face_") else nm["nd"])
+            ds[var] = xr.DataArray(tarr, dims=[rowdim, f"d{k}_cols"], attrs=tat)
             opt[name] = dict(var=var, arr=tarr, at=tat, status=tstatus, pad=tinfo, t=t)
     if case.get("via_file"):
         path = sc.path(".nc")
@@ -580,7 +624,7 @@ def case_ugrid(ctx, case, sc):
     for o in opt.values():
         o["want"] = model(o["arr"], o["at"])
     exp = dict(faces=faces, lon=case["lon"], lat=case["lat"])
-    g = judge(ctx, case, exp, lambda: ux.open_grid(src), mt, expect_n_node=n, source=source)
+    g = judge(ctx, case, exp, lambda: ux.open_grid(src), mt, expect_n_node=n, source=source, centres=fc, edge_centres=ec)
     if g is None:
         return
     for name, o in opt.items():
@@ -644,11 +688,20 @@ def case_topology(ctx, case, sc):
     mt = dec_res(d.ask("C01.topology", enc_optcell(fv), dl["base"], enc_raw(arr)))
     kw = dict(node_lon=src_lon(case), node_lat=np.asarray(case["lat"], float), face_node_connectivity=arr.copy(),
               fill_value=fv, start_index=dl["base"])
+    xyz = xyz_of(case["lon"], case["lat"])
+    fc = ec = None
+    if dl.get("face_centres"):
+        fc = centres_of(xyz, faces)
+        kw["face_lon"], kw["face_lat"] = lon_conv(case, "face", fc[0]), fc[1].copy()
+    if dl.get("edge_centres"):
+        ec = centres_of(xyz, edges_of(faces)[0])
+        kw["edge_lon"], kw["edge_lat"] = lon_conv(case, "edge", ec[0]), ec[1].copy()
     if dl.get("api") == "dict":
         open_fn = lambda: ux.open_grid(kw)
     else:
         open_fn = lambda: ux.Grid.from_topology(**kw)
-    judge(ctx, case, dict(faces=faces, lon=case["lon"], lat=case["lat"]), open_fn, mt, expect_n_node=n, source=kw)
+    judge(ctx, case, dict(faces=faces, lon=case["lon"], lat=case["lat"]), open_fn, mt, expect_n_node=n, source=kw,
+          centres=fc, edge_centres=ec)
 
 
 def pad_tail(rng_vals, f, w, mode, n, one_based=1):
@@ -748,7 +801,7 @@ def mpas_check_carried(ctx, case, g, mode, wants, floats, when):
                      got[:20], floats[srcname][:20], ["carried_arrays"])
 
 
-def mpas_run(ctx, case, sc, T, coords, floats, primal_exp, dual_exp, first_mode):
+def mpas_run(ctx, case, sc, T, coords, floats, primal_exp, dual_exp, first_mode, cartesian_nodes=False):
     """T: integer tables, coords: radians arrays, floats: supplied float arrays; dual_exp None when the
     dataset describes no dual mesh (partial mesh / incomplete vertex rings)"""
     import uxarray as ux
@@ -766,7 +819,14 @@ def mpas_run(ctx, case, sc, T, coords, floats, primal_exp, dual_exp, first_mode)
     floats = {k: np.array(v, dtype=float) for k, v in floats.items()}
     ds = xr.Dataset()
     for k, v in list(T.items()) + list(coords.items()):
+        if cartesian_nodes and k in ("lonVertex", "latVertex"):
+            continue
         ds[k] = xr.DataArray(v, dims=dims[k])
+    if cartesian_nodes:
+        # Cartesian-only corner nodes (node_lon / node_lat are derived lazily), lon/lat centres
+        vx = xyz_of(np.degrees(coords["lonVertex"]), np.degrees(coords["latVertex"]))
+        for j, nme in enumerate(("xVertex", "yVertex", "zVertex")):
+            ds[nme] = xr.DataArray(vx[:, j].copy(), dims=["nVertices"])
     for k, v in floats.items():
         ds[k] = xr.DataArray(v.copy(), dims=dims[k])
     if case.get("via_file"):
@@ -778,15 +838,17 @@ def mpas_run(ctx, case, sc, T, coords, floats, primal_exp, dual_exp, first_mode)
     deg = np.degrees
     opens = dict(primal=dict(exp=primal_exp, open_fn=lambda: ux.open_grid(src), model_table=mt_primal,
                              expect_n_node=len(coords["lonVertex"]), centres=(deg(coords["lonCell"]), deg(coords["latCell"])),
+                             edge_centres=(deg(coords["lonEdge"]), deg(coords["latEdge"])) if "lonEdge" in coords else None,
                              post=lambda g: mpas_check_carried(ctx, case, g, "primal", wants, floats, "other opening")))
     if dual_exp is not None:
         opens["dual"] = dict(exp=dual_exp, open_fn=lambda: ux.open_grid(src, use_dual=True), model_table=mt_dual,
                              expect_n_node=len(coords["lonCell"]), centres=(deg(coords["lonVertex"]), deg(coords["latVertex"])),
+                             edge_centres=(deg(coords["lonEdge"]), deg(coords["latEdge"])) if "lonEdge" in coords else None,
                              post=lambda g: mpas_check_carried(ctx, case, g, "dual", wants, floats, "other opening"))
     first = opens[first_mode]
     others = [o for m, o in opens.items() if m != first_mode]
     g = judge(ctx, case, first["exp"], first["open_fn"], first["model_table"], expect_n_node=first["expect_n_node"],
-              centres=first["centres"], source=source, others=others)
+              centres=first["centres"], source=source, others=others, edge_centres=first.get("edge_centres"))
     if g is not None:
         # the first Grid, after every later opening of the same source
         mpas_check_carried(ctx, case, g, first_mode, wants, floats, "first Grid after the later openings")
@@ -831,9 +893,9 @@ def case_mpas(ctx, case, sc):
     cent = np.array([am.xyz[f].mean(axis=0) for f in faces])
     cent /= np.linalg.norm(cent, axis=1, keepdims=True)
     clon, clat = np.arctan2(cent[:, 1], cent[:, 0]), np.arcsin(np.clip(cent[:, 2], -1, 1))
-    two_pi = (lambda a: np.where(a < 0, a + 2 * np.pi, a)) if dl.get("lon360", True) else (lambda a: a)
-    coords = dict(lonVertex=two_pi(np.radians(np.asarray(case["lon"], float))), latVertex=np.radians(np.asarray(case["lat"], float)),
-                  lonCell=two_pi(clon), latCell=clat)
+    # the convention is drawn per variable: lonVertex (node), lonCell (face), lonEdge (edge)
+    coords = dict(lonVertex=np.radians(lon_conv(case, "node", case["lon"])), latVertex=np.radians(np.asarray(case["lat"], float)),
+                  lonCell=np.radians(lon_conv(case, "face", np.degrees(clon))), latCell=clat)
     floats = {}
     if dl.get("tables"):
         T["verticesOnEdge"] = np.array([[a + 1, b + 1] for a, b in edges], dtype=it)
@@ -854,13 +916,16 @@ def case_mpas(ctx, case, sc):
 
         T["cellsOnCell"] = np.array([r + tail_cells(r) for r in nbr], dtype=it)
         T["edgesOnVertex"] = np.array([[e + 1 for e in r] + [0] * (vd - len(r)) for r in vedges], dtype=it)
+        elon, elat = centres_of(am.xyz, edges)
+        coords["lonEdge"], coords["latEdge"] = np.radians(lon_conv(case, "edge", elon)), np.radians(elat)
         floats = dict(areaCell=np.arange(1, len(faces) + 1, dtype=float) * 0.125, areaTriangle=np.arange(1, n + 1, dtype=float) * 0.03125,
                       dvEdge=np.arange(1, len(edges) + 1, dtype=float) * 0.5, dcEdge=np.arange(1, len(edges) + 1, dtype=float) * 0.75)
         if any(0 in r for r in nbr):
             ctx.hit("mpas:boundary-cells(cellsOnCell has 0 inside the valid prefix)")
     primal_exp = dict(faces=faces, lon=case["lon"], lat=case["lat"])
     dual_exp = dict(faces=cov_rows, lon=np.degrees(clon), lat=np.degrees(clat)) if has_dual else None
-    mpas_run(ctx, case, sc, T, coords, floats, primal_exp, dual_exp, "dual" if dl["dual"] else "primal")
+    mpas_run(ctx, case, sc, T, coords, floats, primal_exp, dual_exp, "dual" if dl["dual"] else "primal",
+             cartesian_nodes=dl.get("node_coords") == "xyz")
 
 
 def case_mpas_cut(ctx, case, sc):
@@ -929,10 +994,7 @@ def case_esmf(ctx, case, sc):
     cent = np.array([am.xyz[f].mean(axis=0) for f in faces])
     cent /= np.linalg.norm(cent, axis=1, keepdims=True)
     clon, clat = np.degrees(np.arctan2(cent[:, 1], cent[:, 0])), np.degrees(np.arcsin(np.clip(cent[:, 2], -1, 1)))
-    if dl.get("lon360"):
-        clon_s = np.where(clon < 0, clon + 360, clon)
-    else:
-        clon_s = clon
+    clon_s = lon_conv(case, "face", clon)
     ds = xr.Dataset()
     ds["nodeCoords"] = xr.DataArray(np.stack([src_lon(case), np.asarray(case["lat"], float)], axis=1), dims=["nodeCount", "coordDim"], attrs=dict(units="degrees"))
     at = dict(long_name="Node indices that define the element connectivity")
@@ -1013,7 +1075,7 @@ def case_scrip(ctx, case, sc):
     ds = xr.Dataset()
     ds["grid_corner_lon"] = xr.DataArray(clon, dims=["grid_size", "grid_corners"], attrs=dict(units="degrees"))
     ds["grid_corner_lat"] = xr.DataArray(clat, dims=["grid_size", "grid_corners"], attrs=dict(units="degrees"))
-    ds["grid_center_lon"] = xr.DataArray(np.where(cl < 0, cl + 360, cl) if dl.get("lon360") else cl, dims=["grid_size"], attrs=dict(units="degrees"))
+    ds["grid_center_lon"] = xr.DataArray(lon_conv(case, "face", cl), dims=["grid_size"], attrs=dict(units="degrees"))
     ds["grid_center_lat"] = xr.DataArray(ca, dims=["grid_size"], attrs=dict(units="degrees"))
     ds["grid_area"] = xr.DataArray(np.full(len(faces), 0.01), dims=["grid_size"])
     ds["grid_imask"] = xr.DataArray(np.ones(len(faces), dtype=np.int32), dims=["grid_size"])
@@ -1097,7 +1159,7 @@ def case_geos(ctx, case, sc):
     cent /= np.linalg.norm(cent, axis=1, keepdims=True)
     cl, ca = np.degrees(np.arctan2(cent[:, 1], cent[:, 0])), np.degrees(np.arcsin(np.clip(cent[:, 2], -1, 1)))
     if dl.get("centres", True):
-        ds["lons"] = xr.DataArray((np.where(cl < 0, cl + 360, cl) if dl.get("lon360") else cl).reshape(nf, nx - 1, ny - 1), dims=["nf", "Ydim", "Xdim"])
+        ds["lons"] = xr.DataArray(lon_conv(case, "face", cl).reshape(nf, nx - 1, ny - 1), dims=["nf", "Ydim", "Xdim"])
         ds["lats"] = xr.DataArray(ca.reshape(nf, nx - 1, ny - 1), dims=["nf", "Ydim", "Xdim"])
     if case.get("via_file"):
         path = sc.path(".nc4")
@@ -1134,11 +1196,11 @@ def case_icon(ctx, case, sc):
     cc = np.array([xyz[f].mean(axis=0) for f in faces])
     cc /= np.linalg.norm(cc, axis=1, keepdims=True)
     ds = xr.Dataset()
-    ds["vlon"] = xr.DataArray(np.radians(np.asarray(case["lon"], float)), dims=["vertex"])
+    ds["vlon"] = xr.DataArray(np.radians(lon_conv(case, "node", case["lon"])), dims=["vertex"])
     ds["vlat"] = xr.DataArray(np.radians(np.asarray(case["lat"], float)), dims=["vertex"])
-    ds["elon"] = xr.DataArray(np.arctan2(ec[:, 1], ec[:, 0]), dims=["edge"])
+    ds["elon"] = xr.DataArray(np.radians(lon_conv(case, "edge", np.degrees(np.arctan2(ec[:, 1], ec[:, 0])))), dims=["edge"])
     ds["elat"] = xr.DataArray(np.arcsin(np.clip(ec[:, 2], -1, 1)), dims=["edge"])
-    ds["clon"] = xr.DataArray(np.arctan2(cc[:, 1], cc[:, 0]), dims=["cell"])
+    ds["clon"] = xr.DataArray(np.radians(lon_conv(case, "face", np.degrees(np.arctan2(cc[:, 1], cc[:, 0])))), dims=["cell"])
     ds["clat"] = xr.DataArray(np.arcsin(np.clip(cc[:, 2], -1, 1)), dims=["cell"])
     ds["vertex_of_cell"] = xr.DataArray(voc, dims=["nv", "cell"])
     ds["edge_of_cell"] = xr.DataArray(eoc, dims=["nv", "cell"])
@@ -1158,7 +1220,8 @@ def case_icon(ctx, case, sc):
                                       ("face_edge_connectivity", eoc, len(faces)), ("face_face_connectivity", nci, len(faces)))}
     exp = dict(faces=faces, lon=case["lon"], lat=case["lat"])
     g = judge(ctx, case, exp, lambda: ux.open_grid(src), mt, expect_n_node=n,
-              centres=(np.degrees(np.arctan2(cc[:, 1], cc[:, 0])), np.degrees(np.arcsin(np.clip(cc[:, 2], -1, 1)))), source=source)
+              centres=(np.degrees(np.arctan2(cc[:, 1], cc[:, 0])), np.degrees(np.arcsin(np.clip(cc[:, 2], -1, 1)))), source=source,
+              edge_centres=(np.degrees(np.arctan2(ec[:, 1], ec[:, 0])), np.degrees(np.arcsin(np.clip(ec[:, 2], -1, 1)))))
     if g is None:
         return
     cls_sig = sig_of(dict(fmt="icon", dialect=dialect_class(case)))
@@ -1223,6 +1286,14 @@ def draw_access(ctx, case):
             order = [ctx.rng.choice(["node_lat", "bbox_nodes", "node_x", "face_lon"])] + [x for x in order if x != "bbox_nodes"]
         case["access"] = order
     ctx.hit("first-read=" + (case["access"][0] if case["access"] else "default(face_node_connectivity)"))
+    dl = case.get("dialect")
+    if isinstance(dl, dict) and not case.get("sample_file") and case.get("fmt") != "mpas_cut":
+        if "lonconv" not in dl:
+            dl["lonconv"] = dict(node=ctx.rng.choice(LONCONV), face=ctx.rng.choice(LONCONV), edge=ctx.rng.choice(LONCONV))
+        lc = dl["lonconv"]
+        ctx.hit("lonconv:" + ("all-equal" if len(set(lc.values())) == 1 else "differs-per-variable"))
+        if lc["node"] == "pm180" and (lc["face"] != "pm180" or lc["edge"] != "pm180"):
+            ctx.hit("lonconv:nodes<=180,centres-0..360")
 
 
 def run_case(ctx, case, sc):
@@ -1415,7 +1486,7 @@ def draw_table_dialect(rng, uniform_rows, allow_std=True):
 
 def gen_ugrid(rng, m):
     t = draw_table_dialect(rng, uniform(m))
-    c = base_case("ugrid", m, names=rng.choice(NAMES), lon360=rng.random() < 0.4, **t)
+    c = base_case("ugrid", m, names=rng.choice(NAMES), face_centres=rng.random() < 0.5, edge_centres=rng.random() < 0.4, **t)
     if rng.random() < 0.45 and m.n_face <= 400:
         names = [x for x in UGRID_OPTIONAL if rng.random() < 0.5] or ["edge_node_connectivity"]
         rng.shuffle(names)
@@ -1439,13 +1510,13 @@ def gen_topology(rng, m):
     if fill == INT_FILL:
         store = "i64"
     return base_case("topology", m, base=base, fill=fill, store=store, extra_w=0 if fill is None else rng.choice([0, 0, 1]),
-                     api=rng.choice(["classmethod", "dict"]), lon360=rng.random() < 0.4)
+                     api=rng.choice(["classmethod", "dict"]), face_centres=rng.random() < 0.5, edge_centres=rng.random() < 0.4)
 
 
 def gen_mpas(rng, m, dual=False):
     c = base_case("mpas", m, pad=rng.choice(["zeros", "repeat", "garbage"]), extra_w=rng.choice([0, 0, 1, 2]),
                   garbage=[rng.randrange(1 << 20) for _ in range(11)], dual=dual, tables=rng.random() < 0.6 and m.n_face <= 400,
-                  lon360=rng.random() < 0.7, store=rng.choice(["i32", "i64"]), closed=bool(m.closed))
+                  store=rng.choice(["i32", "i64"]), closed=bool(m.closed), node_coords=rng.choice(["lonlat", "lonlat", "xyz"]))
     c["via_file"] = rng.random() < 0.2
     return c
 
@@ -1455,7 +1526,7 @@ def gen_esmf(rng, m):
     base = rng.choice([0, 1]) if declared else 1
     c = base_case("esmf", m, base=base, declared=declared, pad=rng.choice(["minus1", "minus1", "zeros", "repeat", "garbage"]),
                   store=rng.choice(["i32", "i64"]), extra_w=rng.choice([0, 0, 1]), garbage=[rng.randrange(1 << 20) for _ in range(11)],
-                  centres=rng.random() < 0.7, lon360=rng.random() < 0.5)
+                  centres=rng.random() < 0.7)
     c["via_file"] = rng.random() < 0.25
     return c
 
@@ -1489,13 +1560,13 @@ def gen_exodus(rng, m, many=False):
 
 
 def gen_scrip(rng, m):
-    c = base_case("scrip", m, pad="uniform" if uniform(m) else "repeat-last", lon360=rng.random() < 0.5)
+    c = base_case("scrip", m, pad="uniform" if uniform(m) else "repeat-last")
     c["via_file"] = rng.random() < 0.2
     return c
 
 
 def gen_vertices(rng, m):
-    return base_case("vertices", m, pad="uniform" if uniform(m) else "fill", api=rng.choice(["array", "list"]), lon360=rng.random() < 0.3,
+    return base_case("vertices", m, pad="uniform" if uniform(m) else "fill", api=rng.choice(["array", "list"]),
                      coords=rng.choice(["lonlat", "xyz"]))
 
 
@@ -1512,7 +1583,7 @@ def gen_geos(rng):
     idx = lambda t, a, b: t * nx * ny + a * ny + b
     faces = [[idx(t, a + 1, b + 1), idx(t, a + 1, b), idx(t, a, b), idx(t, a, b + 1)]
              for t in range(nf) for a in range(nx - 1) for b in range(ny - 1)]
-    c = dict(fmt="geos", faces=faces, lon=lon, lat=lat, dialect=dict(nf=nf, nx=nx, ny=ny, centres=rng.random() < 0.7, lon360=rng.random() < 0.5), via_file=rng.random() < 0.2)
+    c = dict(fmt="geos", faces=faces, lon=lon, lat=lat, dialect=dict(nf=nf, nx=nx, ny=ny, centres=rng.random() < 0.7), via_file=rng.random() < 0.2)
     return c
 
 
